@@ -12,6 +12,7 @@ ASSUMPTIONS = ["tasks are polled only when the case says so (hand polling); 40 s
 PARTIAL = []
 USES_GEN = False
 WANT = {13}
+PROPS_FILES = ["C13", "C13ctl"]
 
 
 class BpPart(LIFE.IoPart):
@@ -47,27 +48,102 @@ class BpPart(LIFE.IoPart):
         return "1"
 
 
+# ---- fragment for tools/props/C13.py -------------------------------------------------------------
+from props.base import Part  # noqa: E402
+import gen_ctlwrap as GCW
+
+
+class CtlWrapPart(Part):
+    """engines ctlwrap3 / ctlwrap5: the wrapper a server puts around the application's control service
+    (ControlService of src/v3/default.rs, src/v5/default.rs).  io.rs spawns every WrBackpressure notification as
+    its own task; the application's control service may take any time over each of them.  What the sink does
+    must follow the order in which the notifications were ISSUED: once the last notification issued says "off"
+    (or none was issued) and nothing has been sent, the sink must be ready -- whatever the application's calls
+    are doing.  Read off the observation alone (the number of calls the application has received tells whether
+    an operation `1,b` made the dispatcher issue a notification); knows nothing of the model."""
+    has_oracle = False
+    NO_SHRINK_FIELDS = (0,)
+
+    @staticmethod
+    def _nums(f):
+        return [int(x) for x in f.split(",")] if f.strip() else []
+
+    def py_oracle(self, case, obs):
+        if obs == "9999":
+            return "0,1,0"
+        fields = case.split(";")
+        cap = self._nums(fields[0])[0]
+        ops = [self._nums(f) for f in fields[1:]]
+        steps = [self._nums(f) for f in obs.split(";")]
+        if cap < 1:
+            return "1"                      # a closed window: never ready
+        last = 0                            # value of the last notification issued so far (none = off)
+        issued = 0
+        for i, op in enumerate(ops):
+            if i >= len(steps):
+                break
+            ready, n_issued = steps[i][0], steps[i][1]
+            if op[:1] in ([5], [6]):
+                break                       # something sent / acknowledged: the window may be full, the connection closed
+            if n_issued != issued:
+                if op[:1] != [1] or len(op) < 2 or n_issued != issued + 1:
+                    break                   # not a schedule this scan understands: no verdict
+                issued = n_issued
+                last = 1 if op[1] != 0 else 0
+            if last == 0 and ready == 0:
+                return "0,134,%d" % i
+        return "1"
+
+    def nontrivial(self, case, obs):
+        # back-pressure was lifted at least once
+        return obs != "9999" and self._nums(obs.split(";")[-1])[1] >= 2
+
+    def classify(self, case, obs):
+        if obs == "9999":
+            return "panic"
+        f = self._nums(obs.split(";")[-1])
+        return "notifications=%d completed=%d ready=%d" % (min(f[1], 4), min(f[2], 4), f[0])
+
+
+def ctlwrap_parts(tier, rng):
+    res = []
+    for eng in ("ctlwrap3", "ctlwrap5"):
+        for name, cases in GCW.all_cases(rng, tier):
+            res.append(CtlWrapPart("%s-%s" % (eng, name), eng, cases, shards=16,
+                                   rule="schedules of back-pressure on/off at the io, completions of the gated "
+                                        "application control calls in every order, ready()/QoS 1 tasks, PUBACKs"))
+    return res
+# ---- end of fragment -----------------------------------------------------------------------------
+
+
 def parts(tier, rng):
     res = S.make_parts(tier, rng, WANT, quiesced=True)
     for name, rule, cases in GI.iostate_cases(rng, tier):
         if "backpressure" in name:
             res.append(BpPart("io-" + name, "iostate", cases, shards=16, rule=rule))
+    res += ctlwrap_parts(tier, rng)
     return res
 
 
 def replay_parts(rp):
+    if rp.get("engine") in ("ctlwrap3", "ctlwrap5"):
+        return [CtlWrapPart("replay", rp["engine"], [rp["case"]], shards=1)]
     if rp.get("engine") == "iostate":
         return [BpPart("replay", "iostate", [rp["case"]], shards=1)]
     return S.replay_parts(rp, WANT)
 
 
 def known_signature(part, case, impl_obs, oracle):
-    if isinstance(part, LIFE.IoPart):
+    if isinstance(part, (LIFE.IoPart, CtlWrapPart)):
         return None
     return S.known_signature_c13(part, case, impl_obs, oracle) if 13 in WANT else None
 
 
 def clause_text(part, oracle):
+    if isinstance(part, CtlWrapPart):
+        return ("the last back-pressure notification issued says off (or none was issued) and nothing has been sent, "
+                "yet the sink is not ready: the flag follows the completion order of the application's control "
+                "service instead of the order of the notifications")
     if isinstance(part, LIFE.IoPart):
         return ("the dispatcher announced write back-pressure (on) and never announced that it was lifted although the "
                 "peer accepts bytes again, the service is ready and the connection is running: every sender stays parked")
